@@ -18,6 +18,7 @@ def to_scenario(sid, hist, typ, rng):
         elif h["k"] == "reply":
             q = qmap.get(h["q"], h["q"])
             b = rng.choice([q, 2 * q, 50 * glob]) if typ == "tb" else 0
+            b = max(-2 ** 31, min(2 ** 31 - 1, b))
             sc["steps"].append({"k": "reply", "q": q, "b": b})
         else:
             sc["steps"].append({"k": "replyerr"})
